@@ -3,6 +3,7 @@ import FcpptModel.Spec.C01
 import FcpptModel.Model.C01.Env
 import FcpptProofs.C01.Stream
 import FcpptProofs.C01.Path
+import FcpptProofs.C01.Vector
 import FcpptProofs.Props.C01.Scalar
 import FcpptProofs.Props.C06.Basic
 import FcpptProofs.Props.C06.Arith
@@ -31,7 +32,8 @@ correctness theorem for that instantiation, restated here in the `∃ r, f x = .
 for one representative width per function family plus the widths where a defect was repaired
 (`Props/C01/Scalar.lean` has every remaining instantiation).  Part 3: the io helpers on streams in
 every state (`Model/C01/Stream.lean`), part 4: the path helpers (`Model/C01/Path.lean`), part 5:
-helpers fed by the environment (`Model/C01/Env.lean`).
+helpers fed by the environment (`Model/C01/Env.lean`), part 6: the component-wise vector wrappers of the
+translated scalar helpers (`Model/C01/Vector.lean`).
 -/
 namespace Fcppt.C01
 open Fcppt
@@ -643,6 +645,13 @@ theorem systemResult_spec (status : Nat) :
     exact ⟨fun _ => ⟨_, rfl, Nat.mod_lt _ (by decide)⟩, fun h' => absurd rfl h'⟩
   · simp [h]
 
+/-- vector::atan2 answers unless BOTH components are zero; a NaN component is not a zero -/
+theorem vectorAtan2_none_iff (x y : FClass) : vectorAtan2 x y = none ↔ (x = .zero ∧ y = .zero) := by
+  unfold vectorAtan2; cases x <;> cases y <;> simp
+
+theorem weakLock_none_iff (owners : Nat) : weakLock owners = none ↔ owners = 0 := by
+  unfold weakLock; by_cases h : owners = 0 <;> simp [h]
+
 theorem dynamicCast_spec (dyn target : Cls) :
     (dynamicCast dyn target = some dyn ↔ dyn.isA target = true) ∧ (dynamicCast dyn target = none ↔ dyn.isA target = false) := by
   unfold dynamicCast; cases dyn.isA target <;> simp
@@ -656,5 +665,108 @@ theorem timeGmtime_total (answer : Option Tm) :
 example : argsFromSecond 3 ["p".toList, "a".toList, "b".toList] = .ok ["a".toList, "b".toList] ∧ argsFromSecond 0 [] = .ok [] := by decide
 example : (gmtimeR 951782400 = some ⟨2000, 2, 29, 0, 0, 0⟩) ∧ gmtimeR 67768036191676800 = none ∧ gmtimeR (-1) = some ⟨1969, 12, 31, 23, 59, 59⟩ := by decide
 example : dynamicCast .m .iface = some .m ∧ dynamicCast .d3 .d1 = some .d3 ∧ dynamicCast .d1 .d3 = none := by decide
+
+/-! ## Part 6: math::vector — component-wise wrappers of the translated scalar helpers, all or nothing -/
+
+/-- vector / scalar (int32): total whenever every exact quotient is representable; nothing iff the divisor is zero -/
+theorem vdiv_i32_total (v : List Int) (d : Int) (hv : ∀ x ∈ v, IntTy.i32.InRange x) (hd : IntTy.i32.InRange d)
+    (hr : d ≠ 0 → ∀ x ∈ v, IntTy.i32.InRange (Int.tdiv x d)) :
+    vdiv_i32 v d = .ok (sequenceOpt (v.map fun x => if d = 0 then none else some (Int.tdiv x d))) := by
+  unfold vdiv_i32
+  apply vectorMap_ok
+  intro x hx
+  by_cases h : d = 0
+  · subst h; simp [div_i32_zero]
+  · simp [h, div_i32_correct x d (hv x hx) hd h (hr h x hx)]
+
+theorem vdiv_u32_total (v : List Int) (d : Int) (hv : ∀ x ∈ v, IntTy.u32.InRange x) (hd : IntTy.u32.InRange d) :
+    vdiv_u32 v d = .ok (sequenceOpt (v.map fun x => if d = 0 then none else some (Int.tdiv x d))) := by
+  unfold vdiv_u32
+  apply vectorMap_ok
+  intro x hx
+  by_cases h : d = 0
+  · subst h; simp [div_u32_zero]
+  · simp [h, div_u32_correct x d (hv x hx) hd h (u32_tdiv_inRange x d (hv x hx) hd h)]
+
+theorem vmod_u32_total (v : List Int) (d : Int) (hv : ∀ x ∈ v, IntTy.u32.InRange x) (hd : IntTy.u32.InRange d) :
+    vmod_u32 v d = .ok (sequenceOpt (v.map fun x => if d = 0 then none else some (x % d))) := by
+  unfold vmod_u32
+  apply vectorMap_ok
+  intro x hx
+  by_cases h : d = 0
+  · subst h; simp [mod_u32_zero]
+  · simp [h, mod_u32_correct x d (hv x hx) hd h]
+
+/-- vector / vector: component by component, nothing iff SOME divisor component is zero -/
+theorem vdivv_i32_total (l r : List Int) (hl : ∀ x ∈ l, IntTy.i32.InRange x) (hr : ∀ y ∈ r, IntTy.i32.InRange y)
+    (hq : ∀ p ∈ l.zip r, p.2 ≠ 0 → IntTy.i32.InRange (Int.tdiv p.1 p.2)) :
+    vdivv_i32 l r = .ok (sequenceOpt ((l.zip r).map fun p => if p.2 = 0 then none else some (Int.tdiv p.1 p.2))) := by
+  unfold vdivv_i32
+  apply vectorZip_ok (g := fun a b => if b = 0 then none else some (Int.tdiv a b))
+  intro p hp
+  have h1 := hl p.1 (List.of_mem_zip hp).1
+  have h2 := hr p.2 (List.of_mem_zip hp).2
+  by_cases h : p.2 = 0
+  · simp [h, div_i32_zero]
+  · simp [h, div_i32_correct p.1 p.2 h1 h2 h (hq p hp h)]
+
+theorem vmodv_u32_total (l r : List Int) (hl : ∀ x ∈ l, IntTy.u32.InRange x) (hr : ∀ y ∈ r, IntTy.u32.InRange y) :
+    vmodv_u32 l r = .ok (sequenceOpt ((l.zip r).map fun p => if p.2 = 0 then none else some (p.1 % p.2))) := by
+  unfold vmodv_u32
+  apply vectorZip_ok (g := fun a b => if b = 0 then none else some (a % b))
+  intro p hp
+  have h1 := hl p.1 (List.of_mem_zip hp).1
+  have h2 := hr p.2 (List.of_mem_zip hp).2
+  by_cases h : p.2 = 0
+  · simp [h, mod_u32_zero]
+  · simp [h, mod_u32_correct p.1 p.2 h1 h2 h]
+
+/-- ceil_div_signed on a vector: total whenever every exact ceiling is representable; every component is the ceiling -/
+theorem vceildiv_i32_total (v : List Int) (d : Int) (hv : ∀ x ∈ v, IntTy.i32.InRange x) (hd : IntTy.i32.InRange d)
+    (hrep : ∀ x ∈ v, ∀ q, IsCeilDiv x d q → IntTy.i32.InRange q) :
+    ∃ r, vceildiv_i32 v d = .ok r ∧
+      (d = 0 → v ≠ [] → r = none) ∧
+      (d ≠ 0 → ∃ qs, r = some qs ∧ qs.length = v.length ∧ ∀ i (h1 : i < v.length) (h2 : i < qs.length), IsCeilDiv v[i] d qs[i]) := by
+  unfold vceildiv_i32
+  by_cases h : d = 0
+  · subst h
+    rw [vectorMap_ok (g := fun _ => none) v (fun x _ => ceil_div_signed_i32_zero x)]
+    refine ⟨_, rfl, ?_, fun h => absurd rfl h⟩
+    intro _ hne
+    rw [sequenceOpt_eq_none_iff]
+    cases v with
+    | nil => exact absurd rfl hne
+    | cons x r => simp
+  · -- choose the quotient of every component
+    have hex : ∀ x ∈ v, ∃ q, ceil_div_signed_i32 x d = .ok (some q) ∧ IsCeilDiv x d q :=
+      fun x hx => ceil_div_signed_i32_correct x d (hv x hx) hd h (hrep x hx)
+    have key : ∀ (w : List Int), (∀ x ∈ w, ∃ q, ceil_div_signed_i32 x d = .ok (some q) ∧ IsCeilDiv x d q) →
+        ∃ qs : List Int, w.mapM (fun x => ceil_div_signed_i32 x d) = .ok (qs.map some) ∧ qs.length = w.length ∧
+          ∀ i (h1 : i < w.length) (h2 : i < qs.length), IsCeilDiv w[i] d qs[i] := by
+      intro w
+      induction w with
+      | nil => intro _; exact ⟨[], rfl, rfl, fun i h1 _ => absurd h1 (by simp)⟩
+      | cons x t ih =>
+        intro hw
+        obtain ⟨q, hq, hc⟩ := hw x (by simp)
+        obtain ⟨qs, hqs, hlen, hall⟩ := ih (fun y hy => hw y (by simp [hy]))
+        refine ⟨q :: qs, ?_, by simp [hlen], ?_⟩
+        · simp only [List.mapM_cons, hq, hqs, bind, Except.bind, List.map_cons]; rfl
+        · intro i h1 h2
+          cases i with
+          | zero => simpa using hc
+          | succ j => simpa using hall j (by simpa using h1) (by simpa using h2)
+    obtain ⟨qs, hqs, hlen, hall⟩ := key v hex
+    refine ⟨some qs, ?_, fun h0 => absurd h0 h, fun _ => ⟨qs, rfl, hlen, hall⟩⟩
+    unfold vectorMap
+    rw [hqs]
+    show Except.ok (sequenceOpt (qs.map some)) = _
+    rw [sequenceOpt_map_some]
+
+
+example : vdiv_i32 [7, -7, 2147483647] 2 = .ok (some [3, -3, 1073741823]) ∧ vdiv_i32 [1, 2] 0 = .ok none ∧
+    vdivv_i32 [4, 5] [2, 0] = .ok none ∧ vceildiv_i32 [5, -5] 2 = .ok (some [3, -2]) := by decide
+/-- outside the guard the component's fault is the vector's: INT_MIN / -1 -/
+example : vdiv_i32 [1, -2147483648] (-1) = .error .signedOverflow := by decide
 
 end Fcppt.C01
